@@ -15,7 +15,7 @@ Record case_t := Case {
   c_T : tinfo; c_D : dinfo;
   c_f : bfile;                   (* the generated content *)
   c_ref : list word;             (* Python reference encoder's output for c_f *)
-  c_ws : list word;              (* mode 0: whole words of the file given to the library (c_ref unless malformed) *)
+  c_ws : list word;              (* mode 0, malformed: whole words of the file given to the library (otherwise c_ref is given) *)
   c_size : Z;                    (* mode 0: its size in bytes *)
   c_mal : bool;                  (* mode 0: edited or truncated *)
   c_scaled : bool;               (* opened with noscale=False *)
@@ -52,10 +52,12 @@ Definition view_match (scaled : bool) (m o : view) : bool :=
 Definition res_match (scaled : bool) (r : result view) (ok : bool) (o : view) : bool :=
   match r with Ok v => ok && view_match scaled v o | Err => negb ok end.
 
+Definition given (c : case_t) : list word := if c_mal c then c_ws c else c_ref c.
+
 Definition checkF (c : case_t) : bool :=
   zlist_eqb (enc (c_f c)) (c_ref c)
   && if c_mode c =? 0 then
-       let r := impl_open (c_T c) (c_D c) (c_ws c) (c_size c) in
+       let r := impl_open (c_T c) (c_D c) (given c) (c_size c) in
        res_match (c_scaled c) r (c_open_ok c) (c_view c)
        && match r with
           | Ok v => if c_wrote c then zlist_eqb (impl_write v) (c_written c) else true
@@ -72,12 +74,11 @@ Definition checkF (c : case_t) : bool :=
 Definition checkS (c : case_t) : bool :=
   if c_mal c then true else
   c_open_ok c && view_match (c_scaled c) (view_of (c_T c) (c_D c) (c_f c)) (c_view c)
-  && (if (c_mode c =? 0) && negb (c_scaled c) then c_wrote c && zlist_eqb (c_written c) (c_ws c) else true)
+  && (if (c_mode c =? 0) && negb (c_scaled c) then c_wrote c && zlist_eqb (c_written c) (given c) else true)
   && (if c_mode c =? 0 then true else c_wrote c).
 
-Definition region (c : case_t) : nat :=
-  if c_mal c then 0%nat else
-  if one_by_two (c_f c) then 1%nat else
-  if existsb (fun b => max_layers <? b_nz b) (tb0 (c_f c)) then 3%nat else 0%nat.
+(* every case evaluated here is inside the proved domain; region 1 (bpch2 cannot run) is decided by the Python
+   oracle on the cases that are not evaluated in Coq *)
+Definition region (c : case_t) : nat := 0%nat.
 
 Definition check (c : case_t) : verdict := (checkF c, checkS c, region c).
